@@ -93,7 +93,32 @@ func RunWorker(a WorkerArgs) int {
 	}
 	out := bufio.NewWriterSize(os.Stdout, 1<<16)
 	enc := json.NewEncoder(out)
+	// Enumerating the units may take a while (a check may build its whole case
+	// pool first): beat while it runs so that the supervisor's hang watchdog
+	// does not take the set-up for a hang; a set-up that does not end within
+	// ten minutes stops beating and is killed
+	setupDone := make(chan struct{})
+	beatStopped := make(chan struct{})
+	if j == nil {
+		close(beatStopped)
+	} else {
+		go func() {
+			defer close(beatStopped)
+			t := time.NewTicker(time.Second)
+			defer t.Stop()
+			for i := 0; i < 600; i++ {
+				select {
+				case <-setupDone:
+					return
+				case <-t.C:
+					j.Set(-1, -1)
+				}
+			}
+		}()
+	}
 	n := c.Units(a.Tier)
+	close(setupDone)
+	<-beatStopped // (no stray beat may overwrite the unit recorded below)
 	timedOut := false
 	for u := a.From; u < n; u++ {
 		if u%a.NShards != a.Shard {
